@@ -160,4 +160,22 @@ func VerifC16_QueuedThenCancelled() {
 	}
 }
 
+// VerifC16_DeliveredThenCancelled: a message is delivered and the receiver's
+// context is cancelled right afterwards, before the receiver's goroutine gets
+// to run (no preemption is allowed in this unit, so the receiver cannot have
+// checked its context before the cancel): whether the message is still queued
+// or was already taken from the queue, the handler must not see it.
+func VerifC16_DeliveredThenCancelled() {
+	c := &vChan{}
+	ctx, cancel := context.WithCancel(context.Background())
+	handled := 0
+	c.Recv(ctx, func(m net.Message) { handled++ })
+	vQuiesce() // the receiver is parked, waiting for a message or its context
+	c.deliver(vDraw())
+	cancel()
+	vQuiesce()
+	vReach("cancelled")
+	vAssert(handled == 0, "a message reached the receiver although its context had been cancelled before the receiver looked at it")
+}
+
 type vChan = localChannel
